@@ -216,6 +216,8 @@ func member(t Ty, v Val, asg func(t, u Ty) bool) bool {
 		return v.K == "t" && asg(t.Ts[0], *v.T)
 	case "sens":
 		return v.K == "sv" && member(t.Ts[0], v.Vs[0], asg)
+	case "call": // lambdas are not part of the value language
+		return false
 	case "rt": // runtime values are not part of the value language
 		return false
 	case "itr": // iterators are not part of the value language: no value term denotes one
